@@ -2,5 +2,5 @@
 (* The time budget of C06 (milliseconds) for an input of n bytes: generous and quadratic; a hang or a *)
 (* cubic blow-up exceeds it, n log n and n^2 do not.                                                   *)
 EXTENDS Integers
-BudgetMs(n) == LET nk == (n + 999) \div 1000 IN 3000 + 2 * nk * nk
+BudgetMs(n) == LET nk == (n + 999) \div 1000 IN 5000 + 2 * nk * nk
 =============================================================================
